@@ -208,6 +208,31 @@ Definition os_truncate_node (now : Z) (n : node) (k : Z) : node * Z :=
   match n with NFile f => (NFile (os_truncate now f k), SFTP_OK) | NDir f => (NDir f, SFTP_FAILURE)
              | NMissing => (NMissing, SFTP_NO_SUCH_FILE) end.
 
+(* ---- the handle table of one SFTPServer instance ------------------------------------- *)
+(* _send_handle_response names a new handle "hx<next_handle>" and increments the counter;
+   CLOSE deletes the entry; FSETSTAT looks the name up.  Each session (SFTPServer instance)
+   has its own table, created in __init__. *)
+Record htab := mkhtab { ht_next : Z; ht_entries : list (Z * Z) }.    (* handle number -> file id *)
+
+Definition ht_new : htab := mkhtab 1 [].
+Definition ht_open (t : htab) (fid : Z) : htab :=
+  mkhtab (ht_next t + 1) ((ht_next t, fid) :: ht_entries t).
+Definition ht_close (t : htab) (h : Z) : htab :=
+  mkhtab (ht_next t) (filter (fun e => negb (fst e =? h)) (ht_entries t)).
+Fixpoint ht_find (l : list (Z * Z)) (h : Z) : option Z :=
+  match l with
+  | [] => None
+  | (k, v) :: r => if k =? h then Some v else ht_find r h
+  end.
+Definition ht_lookup (t : htab) (h : Z) : option Z := ht_find (ht_entries t) h.
+
+Inductive hop := HOpen (fid : Z) | HClose (h : Z).
+Definition ht_step (t : htab) (o : hop) : htab :=
+  match o with HOpen fid => ht_open t fid | HClose h => ht_close t h end.
+
+(* every live handle was handed out before the counter's present value *)
+Definition ht_inv (t : htab) : Prop := forall k v, In (k, v) (ht_entries t) -> k < ht_next t.
+
 (* ---- correspondence run -------------------------------------------------- *)
 Definition canon_file (f : file) : list Z :=
   [f_mode f; f_uid f; f_gid f; f_atime f; f_mtime f; Z.of_nat (length (f_data f))] ++ f_data f.
